@@ -21,7 +21,7 @@ from .corpus import CORPUS
 
 PROP = "C20"
 FEATURE_SETS = ("none", "full")
-GRAMMARS = ["g1", "g2", "p1", "p3", "c1", "c3", "o1", "o2", "o3", "a1", "a3", "k1", "k2", "k4", "v1", "h1", "kc"]
+GRAMMARS = ["g1", "g2", "p1", "p3", "c1", "c3", "o1", "o2", "o3", "a1", "a3", "k1", "k2", "k4", "v1", "h1", "kc", "hr", "hd"]
 
 
 def norm_msg(ex, v):
